@@ -194,6 +194,23 @@ def ref_trace(ops):
     return done
 
 
+def concrete_path(apath):
+    """abstract path (the reference model's vocabulary) -> the library's action objects"""
+    from kirin.dialects import ilist
+    from bloqade.shuttle.codegen import taskgen as T
+    inv = {v: k for k, v in action_class_info().items()}
+
+    def sel(ns):
+        return slice(ns[1], ns[2], ns[3]) if ns[0] == "S" else ilist.IList(list(ns[1]))
+    out = []
+    for a in apath:
+        if a[0] == "W":
+            out.append(T.WayPointsAction(list(a[1])))
+        else:
+            out.append(inv[(a[1], a[2], a[3])](sel(a[4]), sel(a[5])))
+    return out
+
+
 def wf_py(apath):
     """C11 well-formedness on an abstract path; returns None if fine, else a reason"""
     if not apath:
